@@ -365,3 +365,60 @@ __CPROVER_ensures(g_exc == 0) /*@ C10 "nothing escapes poll()" */
     harness='  MBW* m; MBW_poll(m);', dropped=['assert (NDEBUG)'], trusted=['poll_one by unit MBW.poll_one', '_check_frontend_queues_and_cached_transit_events_empty by unit BW.queues_empty'],
     assumes=['partial correctness: whether the loop ends is not claimed'], min_obligations=8)
 UNITS += [mbw_poll_one, mbw_poll]
+
+# ------------------------------------------------------------------------------------------ Backend::start (both overloads): the call_once bodies
+BEH = 'quill/Backend.h'
+ST_PRELUDE = r'''
+size_t g_clock, g_t_block, g_t_init_handler, g_t_spawn, g_t_ctx_tid, g_t_unblock, g_t_atexit;
+size_t g_spawns, g_atexits, g_blocks, g_unblocks, g_handler_inits, g_ctx_tid_stores; uint32_t g_backend_tid, g_ctx_tid; bool g_atexit_is_stop, g_mask_restored;
+typedef struct SigSet { int g_id; } SigSet;
+#define TICK (g_clock == OLD(g_clock) + 1)
+void START_BACKEND_THREAD(void) __CPROVER_assigns(g_clock, g_t_spawn, g_spawns) __CPROVER_ensures(TICK && g_t_spawn == g_clock && g_spawns == OLD(g_spawns) + 1);
+void ATEXIT_STOP(void) __CPROVER_assigns(g_clock, g_t_atexit, g_atexits, g_atexit_is_stop) __CPROVER_ensures(TICK && g_t_atexit == g_clock && g_atexits == OLD(g_atexits) + 1 && g_atexit_is_stop);
+static inline void SIGFILLSET(SigSet* s) { s->g_id = 1; }        /* 1 = every signal */
+/* sigprocmask(SIG_SETMASK, set, old): installs *set, returns the previous mask in *old (the previous mask has id 2) */
+void SIGPROCMASK(SigSet* set, SigSet* oldp) __CPROVER_assigns(g_clock, g_t_block, g_t_unblock, g_blocks, g_unblocks, g_mask_restored) __CPROVER_assigns(oldp != NULL: oldp->g_id)
+__CPROVER_ensures(TICK && (set->g_id == 1 ? (g_blocks == OLD(g_blocks) + 1 && g_t_block == g_clock && g_unblocks == OLD(g_unblocks) && g_t_unblock == OLD(g_t_unblock) && g_mask_restored == OLD(g_mask_restored))
+                                          : (g_unblocks == OLD(g_unblocks) + 1 && g_t_unblock == g_clock && g_blocks == OLD(g_blocks) && g_t_block == OLD(g_t_block) && g_mask_restored == (set->g_id == 2))))
+__CPROVER_ensures(oldp != NULL ==> oldp->g_id == 2);
+void INIT_SIGNAL_HANDLER(void) __CPROVER_assigns(g_clock, g_t_init_handler, g_handler_inits) __CPROVER_ensures(TICK && g_t_init_handler == g_clock && g_handler_inits == OLD(g_handler_inits) + 1);
+static inline uint32_t GET_BACKEND_TID(void) { return g_backend_tid; }
+void CTX_STORE_TID(uint32_t v) __CPROVER_assigns(g_clock, g_t_ctx_tid, g_ctx_tid_stores, g_ctx_tid) __CPROVER_ensures(TICK && g_t_ctx_tid == g_clock && g_ctx_tid_stores == OLD(g_ctx_tid_stores) + 1 && g_ctx_tid == v);
+'''
+ST_RULES = [(r'detail::BackendManager::instance\(\)\.start_backend_thread\(\w+\)\s*;', 'START_BACKEND_THREAD();', '!'),
+            (r'std::atexit\(\[\]\(\)\s*\{\s*detail::BackendManager::instance\(\)\.stop_backend_thread\(\);\s*\}\)\s*;', 'ATEXIT_STOP();'),
+            (r'sigset_t\s+set,\s*oldset\s*;', 'SigSet set; SigSet oldset;', '?'), (r'sigfillset\(&set\)\s*;', 'SIGFILLSET(&set);', '?'),
+            (r'sigprocmask\(SIG_SETMASK,\s*&set,\s*&oldset\)\s*;', 'SIGPROCMASK(&set, &oldset);', '?'), (r'sigprocmask\(SIG_SETMASK,\s*&oldset,\s*nullptr\)\s*;', 'SIGPROCMASK(&oldset, NULL);', '?'),
+            (r'detail::init_signal_handler<TFrontendOptions>\([^;]*\)\s*;', 'INIT_SIGNAL_HANDLER();', '?'),
+            (r'detail::SignalHandlerContext::instance\(\)\.logger_name\s*=\s*[^;]*;', '', '?'),
+            (r'detail::SignalHandlerContext::instance\(\)\.signal_handler_timeout_seconds\.store\(\s*[^;]*\)\s*;', '', '?'),
+            (r'detail::SignalHandlerContext::instance\(\)\.backend_thread_id\.store\(\s*detail::BackendManager::instance\(\)\.get_backend_thread_id\(\)\)\s*;', 'CTX_STORE_TID(GET_BACKEND_TID());', '?')]
+be_start_plain = dict(
+    name='BE.start[plain]', primary='C07', props={'C07'}, kind='S',
+    desc='Backend::start(options), body of the call_once: the backend thread is started once and afterwards a stop is registered with atexit (normal process exit drains like Backend::stop)',
+    structs=[], prelude=ST_PRELUDE, enforce='BE_start_once', replace=['START_BACKEND_THREAD', 'ATEXIT_STOP'],
+    funcs=[dict(src=dict(header=BEH, cls='Backend', name='start', nth=0, lambda_after=r'std::call_once\([^;]*?\[options\]\(\)'), cfun='BE_start_once', sig='void BE_start_once(void)', member_fields=[], pre_rules=ST_RULES,
+                contract=r'''
+__CPROVER_requires(g_clock == 0 && g_spawns == 0 && g_atexits == 0)
+__CPROVER_assigns(g_clock, g_t_spawn, g_spawns, g_t_atexit, g_atexits, g_atexit_is_stop)
+__CPROVER_ensures(g_spawns == 1) /*@ C07 "start() starts the backend thread once" */
+__CPROVER_ensures(g_atexits == 1 && g_atexit_is_stop && g_t_spawn < g_t_atexit) /*@ C07 "normal process exit stops the backend like Backend::stop(): the stop is registered with atexit after the worker runs" */
+''')],
+    harness='  BE_start_once();', dropped=['std::call_once and the once flag (restart: unit BM.stop_backend_thread)', 'the options copy'], trusted=['start_backend_thread = BackendWorker::run (units BW.main_loop ...)', 'atexit runs the registered function at normal exit'], min_obligations=3)
+be_start_signal = dict(
+    name='BE.start[signal handler]', primary='C07', props={'C07'}, kind='S',
+    desc='Backend::start(options, signal_handler_options), body of the call_once: every signal is blocked while the backend thread is spawned (it inherits the full mask, so handled signals are delivered to application threads), the handler is installed before, the previous mask is restored after, the handler context learns the backend thread id, and the atexit stop is registered',
+    structs=[], prelude=ST_PRELUDE, enforce='BE_start_once', replace=['START_BACKEND_THREAD', 'ATEXIT_STOP', 'SIGPROCMASK', 'INIT_SIGNAL_HANDLER', 'CTX_STORE_TID'],
+    funcs=[dict(src=dict(header=BEH, cls='Backend', name='start', nth=1, lambda_after=r'std::call_once\([^;]*?\[backend_options,\s*signal_handler_options\]\(\)'), cfun='BE_start_once', sig='void BE_start_once(void)', member_fields=[], pre_rules=ST_RULES,
+                contract=r'''
+__CPROVER_requires(g_clock == 0 && g_spawns == 0 && g_atexits == 0 && g_blocks == 0 && g_unblocks == 0 && g_handler_inits == 0 && g_ctx_tid_stores == 0 && !g_mask_restored)
+__CPROVER_assigns(g_clock, g_t_spawn, g_spawns, g_t_atexit, g_atexits, g_atexit_is_stop, g_t_block, g_t_unblock, g_blocks, g_unblocks, g_mask_restored, g_t_init_handler, g_handler_inits, g_t_ctx_tid, g_ctx_tid_stores, g_ctx_tid)
+__CPROVER_ensures(g_spawns == 1 && g_blocks == 1 && g_t_block < g_t_spawn) /*@ C07 "every signal is blocked in the starting thread before the backend thread is spawned (the worker inherits the mask and never runs the handler)" */
+__CPROVER_ensures(g_unblocks == 1 && g_mask_restored && g_t_spawn < g_t_unblock) /*@ C07 "the starting thread gets its previous signal mask back after the spawn, so handled signals reach application threads" */
+__CPROVER_ensures(g_handler_inits == 1) /*@ C07 "the built-in handler is installed for the configured signals" */
+__CPROVER_ensures(g_ctx_tid_stores == 1 && g_ctx_tid == g_backend_tid && g_t_spawn < g_t_ctx_tid) /*@ C07 "the handler knows the backend thread's id (read after the worker started): a signal on the backend thread itself is not logged through the backend" */
+__CPROVER_ensures(g_atexits == 1 && g_atexit_is_stop && g_t_spawn < g_t_atexit) /*@ C07 "normal process exit stops the backend like Backend::stop()" */
+''')],
+    harness='  BE_start_once();', dropped=['std::call_once and the once flag', 'logger name / timeout stored in the handler context', 'the _WIN32 arm (not compiled here)'],
+    trusted=['POSIX: a new thread inherits the creating thread\'s signal mask; sigprocmask / sigfillset', 'init_signal_handler installs on_signal (unit SIG.on_signal) for the listed signals'], min_obligations=6)
+UNITS += [be_start_plain, be_start_signal]
